@@ -74,3 +74,81 @@ func VerifC04_ClusterParentClaims() {
 	rt.Assert(n == 2, "cluster-parent/claimed-set")
 	rt.Cover("cluster-parent/done")
 }
+
+// VerifC04_NegativeSelector — a selector made ONLY of negative expressions
+// (`track NotIn (canary)` / `track DoesNotExist`) matches every object that
+// lacks the label, including one with NO labels at all: such an orphan is
+// adopted and such an owned child is kept (and shown to the hook, C03); an
+// object that carries the excluded label is not adopted / is released.
+func VerifC04_NegativeSelector() {
+	w := env.NewWorld()
+	parent := env.Thing("ns", "p", "puid")
+	expr := map[string]interface{}{"key": "track", "operator": "NotIn", "values": []interface{}{"canary"}}
+	doesNotExist := rt.Bool("operator-DoesNotExist")
+	if doesNotExist {
+		expr = map[string]interface{}{"key": "track", "operator": "DoesNotExist"}
+	}
+	parent.Object["spec"] = map[string]interface{}{"selector": map[string]interface{}{"matchExpressions": []interface{}{expr}}}
+	w.Srv.Put("things", parent)
+
+	kid := env.ConfigMap("ns", "kid", "uid-kid", "v")
+	match := true
+	switch verifC04Pick("kid-labels", 4) {
+	case 0:
+		rt.Cover("negative-selector/no-labels-at-all")
+		unstructured.RemoveNestedField(kid.Object, "metadata", "labels")
+	case 1:
+		env.SetLabel(kid, "unrelated", "x")
+	case 2:
+		env.SetLabel(kid, "track", "canary")
+		match = false
+	case 3:
+		env.SetLabel(kid, "track", "stable")
+		match = !doesNotExist
+	}
+	owned := rt.Bool("kid-is-owned")
+	if owned {
+		env.AddOwnerRef(kid, env.OwnerRefMap("ex.com/v1", "Thing", "p", "puid", true))
+	}
+	w.Srv.Put("configmaps", kid)
+	pc := verifNewPC(w, verifPCConfig{
+		ParentRes: env.ThingRes,
+		Children:  []verifChildRule{{Res: env.ConfigMapRes, Strategy: verifStrategyOf("InPlace")}},
+	})
+	pc.SnapshotFromStore()
+	got, err := pc.claimChildren(pc.W.Srv.All("things")[0])
+	rt.Assert(err == nil, "negative-selector/claim-error")
+
+	live := w.Srv.Peek("configmaps", "ns", "kid")
+	rt.Assert(live != nil, "negative-selector/child-vanished")
+	if live == nil {
+		return
+	}
+	cu, has := verifControllerUID(live)
+	nWrites := len(w.Srv.Writes())
+	switch {
+	case match:
+		// adopted (orphan) or kept (owned)
+		rt.Assert(has && cu == "puid", "negative-selector/matching-child-not-ours-afterwards")
+		if owned {
+			rt.Assert(nWrites == 0, "negative-selector/write-to-a-child-that-needs-none")
+		}
+	case owned:
+		rt.Assert(!has, "negative-selector/non-matching-child-not-released")
+	default:
+		rt.Assert(!has, "negative-selector/non-matching-orphan-adopted")
+		rt.Assert(nWrites == 0, "negative-selector/write-to-a-child-that-needs-none")
+	}
+	n := 0
+	for _, group := range got {
+		for range group {
+			n++
+		}
+	}
+	if match {
+		rt.Assert(n == 1, "negative-selector/matching-child-missing-from-the-claimed-set")
+	} else {
+		rt.Assert(n == 0, "negative-selector/non-matching-child-in-the-claimed-set")
+	}
+	rt.Cover("negative-selector/done")
+}
